@@ -32,6 +32,39 @@ type memBackend struct {
 	honourCtx       bool                 // Upload/Fetch/Discard return ctx.Err() when ctx is done
 	onIssuer        func(op, key string) // called (without the lock) at the start of Fetch/Upload of an issuer/ key
 	issuerEvents    []issuerEvent        // every Fetch/Upload of an issuer/ key, in order, with its outcome
+
+	// gate of the pending scenario: while hold is set, every Upload of a key that is not an
+	// issuer/ key (i.e. the sequencer's uploads) signals held once and waits for hold to be closed
+	hold     chan struct{}
+	held     chan struct{}
+	heldOnce bool
+}
+
+// holdSequencer arms the gate; the returned channel is closed when the first gated Upload waits.
+func (b *memBackend) holdSequencer() (held <-chan struct{}, release func()) {
+	b.mu.Lock()
+	defer b.mu.Unlock()
+	hold, h := make(chan struct{}), make(chan struct{})
+	b.hold, b.held, b.heldOnce = hold, h, false
+	return h, func() {
+		b.mu.Lock()
+		b.hold = nil
+		b.mu.Unlock()
+		close(hold)
+	}
+}
+
+func (b *memBackend) gate(key string) {
+	b.mu.Lock()
+	hold := b.hold
+	if hold != nil && !b.heldOnce {
+		b.heldOnce = true
+		close(b.held)
+	}
+	b.mu.Unlock()
+	if hold != nil {
+		<-hold
+	}
 }
 
 // issuerEvent records one backend operation on an issuer/ key ("fetch" or "upload"): whether it
@@ -60,6 +93,9 @@ func (b *memBackend) Upload(ctx context.Context, key string, data []byte, opts *
 	isIssuer := strings.HasPrefix(key, "issuer/")
 	if isIssuer && b.onIssuer != nil {
 		b.onIssuer("upload", key)
+	}
+	if !isIssuer {
+		b.gate(key)
 	}
 	b.mu.Lock()
 	defer b.mu.Unlock()
